@@ -73,6 +73,9 @@ def signature(clause, doc, t):
                     culprits.add("value or verdict of %s changed" % ("a valid target" if r["valid"] else "a target"))
         return "C16|%s|%s|%s" % (clause, fl, ";".join(sorted(culprits)) or "cause not classified")
     flds = sorted({it["fld"] for it in doc["items"] if it["fld"] != "ok"})
+    spelt = sorted({x.split("spelling ", 1)[1] for x in subs if "spelling " in x})
+    if spelt:
+        flds.append("[%s]" % "; ".join(spelt))
     rootnamed = any(it["name"] == "root" for it in doc["items"])
     return "C16|%s|%s|stage=%s|fields=%s%s" % (clause, fl, t.get("stage", "-"), "+".join(flds) or "plain",
                                               "|an element carries the reserved name of the root of trust"
@@ -128,7 +131,8 @@ def run(ctx):
     ]
     nproc = ctx.pick(4, 8)
     # 1. design checks -------------------------------------------------------------------------
-    runs = ctx.pick([("MC_CertLoad.cfg", "MC_CertLoad: <=3 items, <=1 target"),
+    runs = ctx.pick([("MCL_CertLoad.cfg", "MCL_CertLoad: <=3 items, <=1 target; invariants + Terminates under WF "
+                                          "(no state constraint)"),
                      ("MC_CertLoad2.cfg", "MC_CertLoad2: <=2 items, <=2 targets, 1 unusual payload")],
                     [("MCT_CertLoad.cfg", "MCT_CertLoad: <=4 items, <=1 target"),
                      ("MCT_CertLoad2.cfg", "MCT_CertLoad2: <=3 items, <=2 targets, 1 unusual payload")])
@@ -144,10 +148,11 @@ def run(ctx):
     if never:
         raise core.MachineryError("vacuity: actions never taken: %s" % never)
     res.coverage["uncovered_actions"] = never
-    rl = tlc.check("CertLoad", "Live_CertLoad.cfg", workers=4)
-    if rl.violated:
-        raise core.MachineryError("CertLoad: termination / step bound violated: %s" % rl.violated)
-    res.add_tlc(rl, "Live_CertLoad: Terminates under WF (no state constraint) + step-count invariants")
+    if not ctx.quick:       # (quick: termination is part of the MCL run above)
+        rl = tlc.check("CertLoad", "Live_CertLoad.cfg", workers=4)
+        if rl.violated:
+            raise core.MachineryError("CertLoad: termination / step bound violated: %s" % rl.violated)
+        res.add_tlc(rl, "Live_CertLoad: Terminates under WF (no state constraint) + step-count invariants")
     negs = []
     for cfg, inv in (("Neg_CertLoad.cfg", "NeverDupWins"), ("Neg2_CertLoad.cfg", "NeverCycle"),
                      ("Neg3_CertLoad.cfg", "NeverRootNamed")):
@@ -208,6 +213,11 @@ def run(ctx):
                                                   and any(it["name"] == "root" for it in b["items"]))
         if t is not None and expect_error != (t["o1"]["outcome"] == "error"):
             drift += 1
+            res.coverage.setdefault("model_drift_examples", [])
+            if len(res.coverage["model_drift_examples"]) < 3:
+                res.coverage["model_drift_examples"].append(
+                    {"doc": docs[k], "model": b["phase"], "real": t["o1"]["outcome"], "err": t["o1"]["err"],
+                     "payload": t.get("sub")})
     kept = [k for k, t in enumerate(obs) if t is not None]
     docs, obs = [docs[k] for k in kept], [obs[k] for k in kept]
     n_model = sum(1 for k in kept if k < n_model)
